@@ -1,0 +1,58 @@
+//go:build verif
+
+package web
+
+// Contracts checked by /verif/gvc. Comment-only file (build tag verif).
+
+// ---- http_receiver_v2.go (C14): what the ingesting server builds from a decoded message ----------------------
+// Every series of the message appears in the map under the same name and tags key, with the same tags, source and
+// values, stamped with the receipt time; nothing else appears. (pbWF*: decoded map values are not nil -- assumed of
+// proto.Unmarshal.)
+//@ pred mmOKG(m map[string]gostatsd.Gauge, p *pb.GaugeTagV2, now gostatsd.Nanotime) := m != nil && allocated(m) && (forall t string :: (t in m) == (t in p.TagMap)) && (forall t string :: t in p.TagMap ==> m[t].Timestamp == now && m[t].Value == p.TagMap[t].Value && m[t].Source == p.TagMap[t].Hostname && m[t].Tags == p.TagMap[t].Tags)
+//@ pred mmDistinctG(c map[string]map[string]gostatsd.Gauge) := forall n1 string, n2 string :: n1 in c && n2 in c && n1 != n2 ==> c[n1] != c[n2]
+//@ pred pbWFG(c map[string]*pb.GaugeTagV2) := forall n string :: n in c ==> c[n] != nil && (forall t string :: t in c[n].TagMap ==> c[n].TagMap[t] != nil)
+//@ pred mmOKC(m map[string]gostatsd.Counter, p *pb.CounterTagV2, now gostatsd.Nanotime) := m != nil && allocated(m) && (forall t string :: (t in m) == (t in p.TagMap)) && (forall t string :: t in p.TagMap ==> m[t].Timestamp == now && m[t].Value == p.TagMap[t].Value && m[t].Source == p.TagMap[t].Hostname && m[t].Tags == p.TagMap[t].Tags)
+//@ pred mmDistinctC(c map[string]map[string]gostatsd.Counter) := forall n1 string, n2 string :: n1 in c && n2 in c && n1 != n2 ==> c[n1] != c[n2]
+//@ pred pbWFC(c map[string]*pb.CounterTagV2) := forall n string :: n in c ==> c[n] != nil && (forall t string :: t in c[n].TagMap ==> c[n].TagMap[t] != nil)
+//@ pred mmOKT(m map[string]gostatsd.Timer, p *pb.TimerTagV2, now gostatsd.Nanotime) := m != nil && allocated(m) && (forall t string :: (t in m) == (t in p.TagMap)) && (forall t string :: t in p.TagMap ==> m[t].Timestamp == now && m[t].SampledCount == p.TagMap[t].SampleCount && m[t].Values == p.TagMap[t].Values && m[t].Source == p.TagMap[t].Hostname && m[t].Tags == p.TagMap[t].Tags)
+//@ pred mmDistinctT(c map[string]map[string]gostatsd.Timer) := forall n1 string, n2 string :: n1 in c && n2 in c && n1 != n2 ==> c[n1] != c[n2]
+//@ pred pbWFT(c map[string]*pb.TimerTagV2) := forall n string :: n in c ==> c[n] != nil && (forall t string :: t in c[n].TagMap ==> c[n].TagMap[t] != nil)
+//@ pred listMembers(m map[string]struct{}, vs []string) := (forall i int :: off(vs) <= i && i < off(vs) + len(vs) ==> (at(vs, i) in m)) && (forall x string :: x in m ==> (exists i int :: off(vs) <= i && i < off(vs) + len(vs) && at(vs, i) == x))
+//@ pred mmOKS(m map[string]gostatsd.Set, p *pb.SetTagV2, now gostatsd.Nanotime) := m != nil && allocated(m) && (forall t string :: (t in m) == (t in p.TagMap)) && (forall t string :: t in p.TagMap ==> m[t].Timestamp == now && m[t].Source == p.TagMap[t].Hostname && m[t].Tags == p.TagMap[t].Tags && m[t].Values != nil && allocated(m[t].Values) && listMembers(m[t].Values, p.TagMap[t].Values))
+//@ pred mmDistinctS(c map[string]map[string]gostatsd.Set) := forall n1 string, n2 string :: n1 in c && n2 in c && n1 != n2 ==> c[n1] != c[n2]
+//@ pred pbWFS(c map[string]*pb.SetTagV2) := forall n string :: n in c ==> c[n] != nil && (forall t string :: t in c[n].TagMap ==> c[n].TagMap[t] != nil)
+//@ func translateFromProtobufV2
+//@   floats real
+//@   requires pbMetricMap != nil && pbWFG(pbMetricMap.Gauges) && pbWFC(pbMetricMap.Counters) && pbWFT(pbMetricMap.Timers) && pbWFS(pbMetricMap.Sets)
+//@   ensures  result != nil
+//@   ensures  [gauges] result.Gauges != nil && (forall n string :: (n in result.Gauges) == (n in pbMetricMap.Gauges)) && (forall n string :: n in pbMetricMap.Gauges ==> mmOKG(result.Gauges[n], pbMetricMap.Gauges[n], final(now)))
+//@   ensures  [counters] result.Counters != nil && (forall n string :: (n in result.Counters) == (n in pbMetricMap.Counters)) && (forall n string :: n in pbMetricMap.Counters ==> mmOKC(result.Counters[n], pbMetricMap.Counters[n], final(now)))
+//@   ensures  [timers] result.Timers != nil && (forall n string :: (n in result.Timers) == (n in pbMetricMap.Timers)) && (forall n string :: n in pbMetricMap.Timers ==> mmOKT(result.Timers[n], pbMetricMap.Timers[n], final(now)))
+//@   loop 1 invariant mm != nil && mm.Gauges != nil && allocated(mm.Gauges) && (forall n string :: (n in mm.Gauges) == visited(1)[n]) && (forall n string :: visited(1)[n] ==> n in pbMetricMap.Gauges) && mmDistinctG(mm.Gauges)
+//@   loop 1 invariant forall n string :: n in mm.Gauges ==> mmOKG(mm.Gauges[n], pbMetricMap.Gauges[n], now)
+//@   loop 2 invariant mm != nil && mm.Gauges != nil && allocated(mm.Gauges) && (forall n string :: (n in mm.Gauges) == visited(1)[n]) && (forall n string :: visited(1)[n] ==> n in pbMetricMap.Gauges) && mmDistinctG(mm.Gauges) && metricName in mm.Gauges && tagMap == pbMetricMap.Gauges[metricName] && tagMap != nil
+//@   loop 2 invariant forall n string :: n in mm.Gauges && n != metricName ==> mmOKG(mm.Gauges[n], pbMetricMap.Gauges[n], now)
+//@   loop 2 invariant mm.Gauges[metricName] != nil && allocated(mm.Gauges[metricName]) && (forall t string :: (t in mm.Gauges[metricName]) == visited(2)[t]) && (forall t string :: visited(2)[t] ==> t in tagMap.TagMap)
+//@   loop 2 invariant forall t string :: t in mm.Gauges[metricName] ==> mm.Gauges[metricName][t].Timestamp == now && mm.Gauges[metricName][t].Value == tagMap.TagMap[t].Value && mm.Gauges[metricName][t].Source == tagMap.TagMap[t].Hostname && mm.Gauges[metricName][t].Tags == tagMap.TagMap[t].Tags
+//@   loop 3 invariant mm != nil && mm.Counters != nil && allocated(mm.Counters) && (forall n string :: (n in mm.Counters) == visited(3)[n]) && (forall n string :: visited(3)[n] ==> n in pbMetricMap.Counters) && mmDistinctC(mm.Counters)
+//@   loop 3 invariant forall n string :: n in mm.Counters ==> mmOKC(mm.Counters[n], pbMetricMap.Counters[n], now)
+//@   loop 4 invariant mm != nil && mm.Counters != nil && allocated(mm.Counters) && (forall n string :: (n in mm.Counters) == visited(3)[n]) && (forall n string :: visited(3)[n] ==> n in pbMetricMap.Counters) && mmDistinctC(mm.Counters) && metricName in mm.Counters && tagMap == pbMetricMap.Counters[metricName] && tagMap != nil
+//@   loop 4 invariant forall n string :: n in mm.Counters && n != metricName ==> mmOKC(mm.Counters[n], pbMetricMap.Counters[n], now)
+//@   loop 4 invariant mm.Counters[metricName] != nil && allocated(mm.Counters[metricName]) && (forall t string :: (t in mm.Counters[metricName]) == visited(4)[t]) && (forall t string :: visited(4)[t] ==> t in tagMap.TagMap)
+//@   loop 4 invariant forall t string :: t in mm.Counters[metricName] ==> mm.Counters[metricName][t].Timestamp == now && mm.Counters[metricName][t].Value == tagMap.TagMap[t].Value && mm.Counters[metricName][t].Source == tagMap.TagMap[t].Hostname && mm.Counters[metricName][t].Tags == tagMap.TagMap[t].Tags
+//@   loop 5 invariant mm != nil && mm.Timers != nil && allocated(mm.Timers) && (forall n string :: (n in mm.Timers) == visited(5)[n]) && (forall n string :: visited(5)[n] ==> n in pbMetricMap.Timers) && mmDistinctT(mm.Timers)
+//@   loop 5 invariant forall n string :: n in mm.Timers ==> mmOKT(mm.Timers[n], pbMetricMap.Timers[n], now)
+//@   loop 6 invariant mm != nil && mm.Timers != nil && allocated(mm.Timers) && (forall n string :: (n in mm.Timers) == visited(5)[n]) && (forall n string :: visited(5)[n] ==> n in pbMetricMap.Timers) && mmDistinctT(mm.Timers) && metricName in mm.Timers && tagMap == pbMetricMap.Timers[metricName] && tagMap != nil
+//@   loop 6 invariant forall n string :: n in mm.Timers && n != metricName ==> mmOKT(mm.Timers[n], pbMetricMap.Timers[n], now)
+//@   loop 6 invariant mm.Timers[metricName] != nil && allocated(mm.Timers[metricName]) && (forall t string :: (t in mm.Timers[metricName]) == visited(6)[t]) && (forall t string :: visited(6)[t] ==> t in tagMap.TagMap)
+//@   loop 6 invariant forall t string :: t in mm.Timers[metricName] ==> mm.Timers[metricName][t].Timestamp == now && mm.Timers[metricName][t].SampledCount == tagMap.TagMap[t].SampleCount && mm.Timers[metricName][t].Values == tagMap.TagMap[t].Values && mm.Timers[metricName][t].Source == tagMap.TagMap[t].Hostname && mm.Timers[metricName][t].Tags == tagMap.TagMap[t].Tags
+//@   ensures  [sets] result.Sets != nil && (forall n string :: (n in result.Sets) == (n in pbMetricMap.Sets)) && (forall n string :: n in pbMetricMap.Sets ==> mmOKS(result.Sets[n], pbMetricMap.Sets[n], final(now)))
+//@   loop 7 invariant mm != nil && mm.Sets != nil && allocated(mm.Sets) && (forall n string :: (n in mm.Sets) == visited(7)[n]) && (forall n string :: visited(7)[n] ==> n in pbMetricMap.Sets) && mmDistinctS(mm.Sets)
+//@   loop 7 invariant forall n string :: n in mm.Sets ==> mmOKS(mm.Sets[n], pbMetricMap.Sets[n], now)
+//@   loop 8 invariant mm != nil && mm.Sets != nil && allocated(mm.Sets) && (forall n string :: (n in mm.Sets) == visited(7)[n]) && (forall n string :: visited(7)[n] ==> n in pbMetricMap.Sets) && mmDistinctS(mm.Sets) && metricName in mm.Sets && tagMap == pbMetricMap.Sets[metricName] && tagMap != nil
+//@   loop 8 invariant forall n string :: n in mm.Sets && n != metricName ==> mmOKS(mm.Sets[n], pbMetricMap.Sets[n], now)
+//@   loop 8 invariant mm.Sets[metricName] != nil && allocated(mm.Sets[metricName]) && (forall t string :: (t in mm.Sets[metricName]) == visited(8)[t]) && (forall t string :: visited(8)[t] ==> t in tagMap.TagMap)
+//@   loop 8 invariant forall t string :: t in mm.Sets[metricName] ==> mm.Sets[metricName][t].Timestamp == now && mm.Sets[metricName][t].Source == tagMap.TagMap[t].Hostname && mm.Sets[metricName][t].Tags == tagMap.TagMap[t].Tags && mm.Sets[metricName][t].Values != nil && allocated(mm.Sets[metricName][t].Values) && listMembers(mm.Sets[metricName][t].Values, tagMap.TagMap[t].Values)
+//@   loop 9 invariant mm.Sets[metricName][tagsKey].Values != nil && (forall x string :: (x in mm.Sets[metricName][tagsKey].Values) ==> (exists i int :: off(set.Values) <= i && i <= off(set.Values) + rangeindex && at(set.Values, i) == x)) && (forall i int :: off(set.Values) <= i && i <= off(set.Values) + rangeindex ==> (at(set.Values, i) in mm.Sets[metricName][tagsKey].Values))
+//@   loop 9 invariant forall n string, t string :: n in mm.Sets && t in mm.Sets[n] && (n != metricName || t != tagsKey) ==> mm.Sets[n][t].Values != mm.Sets[metricName][tagsKey].Values && (forall x string :: (x in mm.Sets[n][t].Values) == pre(x in mm.Sets[n][t].Values))
+//@   modifies everything
